@@ -67,8 +67,22 @@ func H10_addhardcert() {
 		key = nil
 	}
 	var err error
+	var callerBlob []byte
+	if crt != nil && vChoose(2, "as-agent-key") == 1 {
+		// the way a served request arrives: format + blob in a buffer the caller owns
+		callerBlob = append([]byte(nil), mwCertMarshal(crt)...)
+		format := mwCertFormat
+		if vIsNative() {
+			format = crt.Type()
+		}
+		key = &agent.Key{Format: format, Blob: callerBlob}
+	}
 	crashed := vCatch(func() { err = s.AddHardCert(key, "hw") })
 	vAssert(!crashed, "C10.no-crash")
+	// the caller reuses its buffer once the call has returned
+	for i := range callerBlob {
+		callerBlob[i] = 0xAA
+	}
 	vAssert(mwInv(s), "C10.table-invariant-preserved")
 	if crt == nil {
 		vAssert(err != nil, "C10.only-certificates-are-accepted")
@@ -251,6 +265,20 @@ func H10_forward() {
 		vAssert(err == nil && len(resp) == int(l), "C10.forward-returns-the-reply-body")
 		if err == nil && len(resp) == int(l) {
 			vAssert(vEqBytes(resp, body[:len(resp)]), "C10.forward-reply-byte-for-byte")
+			// the reply is the caller's: a later forwarded request (of this or
+			// another client) must not write into it
+			kept := append([]byte(nil), resp...)
+			vFreeze("C10.relayed-reply-not-overwritten-by-a-later-request", resp)
+			conn.in = append(conn.in[:0:0], 0, 0, 0, byte(len(resp)))
+			for i := 0; i < len(resp); i++ {
+				conn.in = append(conn.in, 0x5A)
+			}
+			conn.pos = 0
+			r2, err2 := s.Forward([]byte{200})
+			vCheckFrozen()
+			vThaw()
+			vAssert(err2 == nil && len(r2) == len(resp), "C10.second-forward-ok")
+			vAssert(vEqBytes(resp, kept), "C10.relayed-reply-not-overwritten-by-a-later-request")
 		}
 		vReach("C10.forward-ok")
 	} else {
